@@ -16,7 +16,7 @@ RULE = (
     "return the singular class; every property that yields a slot object carries the index of exactly one slotN property of the same "
     "class and of the same slot class; (B) through the real compiler: for every structure and every logic-type property 'X(d0).P' "
     "must emit 'l r? d0 <LogicType P>' and 'Xs.P.Maximum' must emit 'lb r? <hash> <LogicType P> Maximum' whose hash token evaluates to "
-    "the CRC-32; for every slot property and every slot type 'X(d0).S.T' must emit 'ls r? d0 <index> <LogicSlotType T>' (all "
+    "the CRC-32, and (for On / Setting / PrefabHash and every 7th other property) the named form 'Xs[\"nm\"].P.Sum' must emit 'lbn r? <hash> HASH(\"nm\") P Sum'; for every slot property and every slot type 'X(d0).S.T' must emit 'ls r? d0 <index> <LogicSlotType T>' (all "
     "properties, batched 40 per compiled program, verbose and compact); (C) every public function of intrinsics.py: called directly with "
     "distinct sentinel arguments and compiled from source -- opcode == own name (modulo a trailing '_'), operands == arguments in "
     "order, result register present iff the instruction table gives the opcode an output register, opcode listed in "
@@ -69,6 +69,16 @@ def check_struct(case):
         for gname, o in objs:
             if not isinstance(o, p):
                 bad.append(("plural-object-class", gname))
+            # the named plural form Xs["name"] must stay the same type (same prefab) and carry the name
+            n += 1
+            try:
+                nm = o["some name"]
+                if type(nm) is not p or getattr(nm, "_name", None) != "some name":
+                    bad.append(("plural-named-form", f"{gname}['some name'] is {type(nm).__name__}(name={getattr(nm, '_name', None)!r}), expected {pp[0]}"))
+                elif getattr(nm, "_prefab_name", None) != prefab or getattr(nm, "_hash", None) != want:
+                    bad.append(("plural-named-form", f"{gname}['some name'] has prefab {getattr(nm, '_prefab_name', None)!r} / hash {getattr(nm, '_hash', None)}"))
+            except Exception as e:  # noqa: BLE001
+                bad.append(("plural-named-form", f"{gname}['some name'] raised {e!r}"))
             for bm in ("Average", "Sum", "Minimum", "Maximum"):
                 n += 1
                 try:
@@ -155,6 +165,11 @@ def check_compiled(case):
             expect.append(("l", sname, prop, None))
             lines.append(f"db.Setting = {pname}.{prop}.Maximum")
             expect.append(("lb", sname, prop, None))
+            if prop in ("Maximum", "Minimum", "Average", "Sum"):
+                pass  # a logic type named like a batch accessor: 'Xs["nm"].Maximum.Sum' is read as accessor first (see F-16a)
+            elif prop in ("On", "Setting", "PrefabHash") or (hash((sname, prop)) if False else sum(map(ord, sname + prop))) % 7 == 0:
+                lines.append(f"db.Setting = {pname}[\"nm\"].{prop}.Sum")
+                expect.append(("lbn", sname, prop, None))
         else:
             lines.append(f"db.Setting = {sname}(d0).{sprop}.{prop}")
             expect.append(("ls", sname, prop, sidx))
@@ -186,6 +201,10 @@ def check_compiled(case):
                 h = float(HASHv(sing[sname]._prefab_name))
                 if len(t) != 5 or _value(t[2], "v") != h or _value(t[3], "t") != float(LT[pm] if pm in LT.__members__ else -1) or _value(t[4], "bm") != float(LBM["Maximum"]):
                     why = f"expected 'lb r? <{int(h)}> {pm} Maximum'"
+            elif op == "lbn":
+                h = float(HASHv(sing[sname]._prefab_name))
+                if len(t) != 6 or _value(t[2], "v") != h or _value(t[3], "v") != float(HASHv("nm")) or _value(t[4], "t") != float(LT[pm] if pm in LT.__members__ else -1) or _value(t[5], "bm") != float(LBM["Sum"]):
+                    why = f"expected 'lbn r? <{int(h)}> HASH(\"nm\") {pm} Sum'"
             else:
                 if len(t) != 5 or t[2] != "d0" or _value(t[3], "v") != float(sidx) or _value(t[4], "st") != float(LST[pm] if pm in LST.__members__ else -1):
                     why = f"expected 'ls r? d0 {sidx} {pm}'"
